@@ -427,6 +427,12 @@ structure LmChain where
   loopSet : Option (Nat → Bool) := none
   landmarks : List (List LmAlt) := []
 
+/-- `landmarkLeadingWhitespace(landmark, ch)`: `ch` is in the leading-whitespace set of some alternative -/
+def lmLeadingWs (alts : List LmAlt) (ch : Nat) : Bool :=
+  alts.any fun a => match a.leadWs with
+    | some m => m ch
+    | none => false
+
 /-- the outer loop of `findRequiredLandmarkChainLeftToRight` -/
 def lmLoop (S : Nat → Bool) (first : List LmAlt) (rest : List (List LmAlt)) (text : List Nat) (minLen pos : Nat) :
     Nat → Nat → Option Nat
@@ -437,7 +443,10 @@ def lmLoop (S : Nat → Bool) (first : List LmAlt) (rest : List (List LmAlt)) (t
       | none => none
       | some (mt, firstMinEnd) =>
         if lmRest text rest firstMinEnd then
-          let candidate := walkBack S text pos (max mt.start pos)
+          -- the match may use another alternative of the first landmark than the one found: walk back
+          -- over anything that can be leading whitespace of any alternative, then over the leading loop
+          let c1 := walkBack (lmLeadingWs first) text pos mt.coreStart
+          let candidate := walkBack S text pos c1
           if hasLen minLen text.length candidate then some candidate
           else lmLoop S first rest text minLen pos fuel (mt.coreStart + 1)
         else none
@@ -548,25 +557,3 @@ def finderDefault (f : Facts) (text : List Nat) (textstart pos : Nat) : Bool × 
         | some mem => finderFc mem f.rtl text pos
 
 end RegexVerif.Finders
-
-namespace RegexVerif.Scan
-
-/-- What the loop of `Runner.scan` really needs of the candidate finder.  `FinderSound` reads a
-    `false` answer as "no candidate anywhere ahead"; the loop reads it as "no candidate up to and
-    including the position I was left at" — it bumps from there and asks again
-    (`if r.Runtextpos == stoppos { return nil }; r.Runtextpos += bump`).  The anchored branch of
-    `findFirstCharDefault` relies on the weaker reading: right-to-left with `\Z` and a literal prefix
-    (`abc$` on "xabc\n") it answers `(false, end)` at the end although the match sits at `end-1`, the
-    second legal `\Z` position, which the next iteration finds.  `FinderSound` implies this. -/
-def FinderSkipSound (rtl : Bool) (n : Nat) (finder : Nat → Bool × Nat) (attempt : Nat → Option (Nat × Nat)) : Prop :=
-  ∀ pos, pos ≤ n →
-    if rtl then
-      (finder pos).2 ≤ pos ∧
-      ((finder pos).1 = true → ∀ p, (finder pos).2 < p → p ≤ pos → attempt p = none) ∧
-      ((finder pos).1 = false → ∀ p, (finder pos).2 ≤ p → p ≤ pos → attempt p = none)
-    else
-      pos ≤ (finder pos).2 ∧ (finder pos).2 ≤ n ∧
-      ((finder pos).1 = true → ∀ p, pos ≤ p → p < (finder pos).2 → attempt p = none) ∧
-      ((finder pos).1 = false → ∀ p, pos ≤ p → p ≤ (finder pos).2 → attempt p = none)
-
-end RegexVerif.Scan
